@@ -29,6 +29,14 @@ pub struct HedgeCase {
     /// per attempt: (latency ms, ok)
     pub attempts: Vec<(u64, bool)>,
     pub order: Vec<u8>,
+    /// the virtual clock advances in steps of this many ms (1 = every instant is observed; larger
+    /// steps make the hedging future see its timers late, as on a stalled executor)
+    #[serde(default = "one")]
+    pub step_ms: u64,
+}
+
+fn one() -> u64 {
+    1
 }
 
 fn case_strategy(_tier: Tier) -> BoxedStrategy<HedgeCase> {
@@ -49,12 +57,14 @@ fn case_strategy(_tier: Tier) -> BoxedStrategy<HedgeCase> {
         delay,
         prop::collection::vec((lat, prop::bool::weighted(0.45)), 5),
         prop::collection::vec(any::<u8>(), 0..=8),
+        prop_oneof![6 => Just(1u64), 1 => Just(3u64), 1 => Just(7u64), 1 => Just(25u64), 1 => Just(60u64), 1 => 2u64..=120],
     )
-        .prop_map(|(max, delay, attempts, order)| HedgeCase {
+        .prop_map(|(max, delay, attempts, order, step_ms)| HedgeCase {
             max,
             delay,
             attempts,
             order,
+            step_ms,
         })
         .boxed()
 }
@@ -131,10 +141,16 @@ async fn interp(case: &HedgeCase) -> Verdict {
     let task = sim.spawn_call(fut, map_outcome);
     sim.settle().await;
     let total_delay: u64 = (1..case.max).map(|k| delay_ms(&case.delay, k)).sum();
-    let horizon = total_delay + 320;
-    for _ in 0..horizon {
+    // every hedge may be seen up to one step late
+    let horizon = total_delay + 320 + (case.max as u64 + 2) * case.step_ms;
+    let step = case.step_ms.max(1);
+    let mut elapsed = 0;
+    while elapsed < horizon {
+        // a step larger than 1 ms: timers that fell due in between are all seen late, together
+        crate::vclock::advance_ms(step - 1);
         sim.begin_instant().await;
         sim.settle().await;
+        elapsed += step;
     }
 
     let snap = log.snapshot();
@@ -186,9 +202,18 @@ async fn interp(case: &HedgeCase) -> Verdict {
         }
     }
     // per-attempt completion as scripted
+    // completion of each started attempt as actually observed (instant, ok); an attempt still
+    // running at the horizon cannot happen with latencies <= 300 ms
     let fin = |k: usize| -> (u64, bool) {
-        let (lat, ok) = case.attempts[k.min(case.attempts.len() - 1)];
-        (starts[k].0 + lat, ok)
+        snap.iter()
+            .find_map(|e| match e {
+                Ev::Done { t, serial, ok } if *serial == starts[k].1 => Some((*t, *ok)),
+                _ => None,
+            })
+            .unwrap_or_else(|| {
+                let (lat, ok) = case.attempts[k.min(case.attempts.len() - 1)];
+                (starts[k].0 + lat, ok)
+            })
     };
     let resolve = snap.iter().find_map(|e| match e {
         Ev::Resolve { t, task: tk, out } if *tk == task => Some((*t, out.clone())),
@@ -293,6 +318,9 @@ async fn interp(case: &HedgeCase) -> Verdict {
     }
     if nstart > 1 {
         classes.push("hedge_started");
+    }
+    if case.step_ms > 1 {
+        classes.push("coarse_clock_steps");
     }
     Verdict {
         violations,
